@@ -236,6 +236,13 @@ def gen_cluster_r(repo):
                    key=lambda n: n.lineno)
     _expect(len(conv2) == 2 and src(conv2[0].value) == '4 * np.mean([s.a / 60 for s in sources])',
             "priorized_fit_islands: default regroup_eps and its conversion")
+    # the default is set under `if regroup_eps is None:`; the conversion is an unconditional statement of the function body after it,
+    # so that a linking length GIVEN by the caller (arcmin) is converted too
+    dflt = [n for n in pf.body if isinstance(n, ast.If) and src(n.test) == 'regroup_eps is None' and not n.orelse]
+    _expect(len(dflt) == 1 and [x for x in dflt[0].body if isinstance(x, ast.Assign)] == [conv2[0]],
+            "priorized_fit_islands: the default regroup_eps is the only assignment under `if regroup_eps is None:`")
+    _expect(conv2[1] in pf.body and pf.body.index(conv2[1]) > pf.body.index(dflt[0]),
+            "priorized_fit_islands: the arcmin -> chord conversion of regroup_eps is unconditional and follows the default")
     e2 = Tr('R', {'regroup_eps': 'e'}).expr(conv2[1].value)
     calls = [src(n) for n in ast.walk(pf) if isinstance(n, ast.Call) and src(n.func) == 'regroup_dbscan']
     _expect(calls == ['regroup_dbscan(input_sources, eps=regroup_eps)'], f"priorized_fit_islands: {calls}")
